@@ -474,7 +474,9 @@ const TC_BUDGET: u64 = 20_000;
 /// Bytes the subject asks the allocator for during one whole analysis of `code` (None: it did not halt).
 fn work_of(code: &[u8]) -> Result<u64, Verdict> {
     let before = crate::alloc_count::bytes();
-    let r = check_halts(code, &sle::vm::Config::default().with_permissive_errors(true), &Vec::new(), TC_BUDGET);
+    // the poll budget of the short programs, scaled with the length of the chain (a step is 6 to 12 bytes)
+    let budget = TC_BUDGET * (1 + code.len() as u64 / 30);
+    let r = check_halts(code, &sle::vm::Config::default().with_permissive_errors(true), &Vec::new(), budget);
     let used = crate::alloc_count::bytes() - before;
     r.map(|_| used)
 }
@@ -569,7 +571,7 @@ impl Check for C03 {
                                     if work_multiplies(used, *p) {
                                         ctx.violation(
                                             "work-multiplies-with-length".to_string(),
-                                            format!("the analysis asked for {used} bytes of memory in all where the same chain six steps shorter asked for {p} [{desc}; first: {desc0}]"),
+                                            format!("the analysis asked for {used} bytes of memory in all where the next shorter chain of the same kind asked for {p} [{desc}; first: {desc0}]"),
                                             json!({"bytes": hex(&code), "plan": [], "shorter": shorter}),
                                         );
                                         break;
@@ -703,7 +705,7 @@ impl Check for C03 {
              and 3 settings beyond. The VM is driven directly: finishes within an analytic step budget, per-state visit counts <= \
              iteration limit, per-target fork counts <= fork limit, states <= 1 + forks x jumpdests, cumulative minimum gas <= limit + \
              one instruction. (b) all stack-safe read-mask-write sequences <= {} over 10 tokens{}: analyze() must finish within {} \
-             polls under the canonical order and under every single deviation at the unification / storage-export order points; (c) 280 programs whose slot types refer to themselves or to each other: analyze() must finish (rendering a recursive type must stop); (d) 16 pipeline templates (mask / shift / divide / multiply packing, hashing, exp / sar / signextend / byte) with boundary constants (0, 1, 2^k, 2^k+-1, 2^255+1, 2^256-1, ...) in their two holes: analyze() must finish; (e) the ring family of C14 (cyclic typing evidence of every period up to 60) driven on the unifier: it must finish within its poll budget; (f) self-feeding chains: every value-producing opcode (39, including SHA3, the CREATE and CALL families) fed its own result in all, each one and each two of its operand positions 6, 12, 18, 24 times in a row (thorough: 48 and 96 too): analyze() must finish, and the bytes it asks the allocator for must not multiply (more than 8x + 2 MiB) when the chain gets six steps longer — a longer chain runs only after the shorter one passed. \
+             polls under the canonical order and under every single deviation at the unification / storage-export order points; (c) 280 programs whose slot types refer to themselves or to each other: analyze() must finish (rendering a recursive type must stop); (d) 16 pipeline templates (mask / shift / divide / multiply packing, hashing, exp / sar / signextend / byte) with boundary constants (0, 1, 2^k, 2^k+-1, 2^255+1, 2^256-1, ...) in their two holes: analyze() must finish; (e) the ring family of C14 (cyclic typing evidence of every period up to 60) driven on the unifier: it must finish within its poll budget; (f) self-feeding chains: every value-producing opcode (39, including SHA3, the CREATE and CALL families) fed its own result in all, each one and each two of its operand positions 6, 12, 18, 24 times in a row (thorough: 48 and 96 too): analyze() must finish, and the bytes it asks the allocator for must not multiply (more than 8x + 2 MiB) from one length to the next — a longer chain runs only after the shorter one passed; the poll budget grows with the length of the chain. \
              non-trivial = (program, limits) where some limit actually fired, or a cyclic-family program; distinct by content",
             if tier.thorough() { 7 } else { 6 },
             if tier.thorough() { 5 } else { 4 },
@@ -741,7 +743,7 @@ impl Check for C03 {
         println!("code: {}", hex(&code));
         if let Some(sh) = c.get("shorter").and_then(|s| s.as_str()) {
             let short = unhex(sh);
-            println!("the same chain six steps shorter: {}", hex(&short));
+            println!("the next shorter chain of the same kind: {}", hex(&short));
             return match (work_of(&short), work_of(&code)) {
                 (Ok(a), Ok(b)) => {
                     println!("observed: {a} bytes asked for by the shorter chain, {b} by the longer");
